@@ -1,1 +1,471 @@
--- property theorems for C11 (stub)
+import RP.Lemmas.Menu
+import RP.Lemmas.MenuF32
+import RP.Props.C03
+import RP.Props.C15
+/-! # C11 — Every abstract action on a menu maps to a permitted concrete action
+
+Model: `RP.TreeShape.choices / raises / expand / actionize` (bottom of src/gameplay/game.rs, written
+for C10) over the two-seat game model `RP.Game`; codecs `RP.Codec` (edge.rs, path.rs); odds tables
+and constants generated from the source (`RP.Gen.oddsGrid`, `PREF/FLOP/LATE/LAST_RAISES`,
+`MAX_RAISE_REPEATS`, `STACK`, …).
+
+Every menu statement is about **every** state satisfying the game invariant `RP.Game.GameInv` at a
+choice node and **every** raise count `n`; the invariant holds in every state reachable from a
+freshly dealt hand by any accepted action list (`RP.C03.C03_reachable`), so `C11_reachable` states
+them for all reachable states — a superset of the states reachable under the abstraction
+(`C11_abstract_closed`: following a menu entry never trips `apply`'s assertion and lands in a state
+with the invariant again).
+
+* `C11_f32_floor`: on Lean's IEEE-754 `Float32`, in the order game.rs evaluates it,
+  `(pot as f32 * (num as f32 / den as f32)) as i16 = ⌊pot·num/den⌋` for every `0 ≤ pot ≤ 2·STACK`
+  and every entry of `Odds::GRID` (kernel evaluation of the 201 × 10 table); hence
+  `C11_actionize_f32`: the float `actionize` and the integer one agree in every reachable state.
+* `C11_menu_nonempty`, `C11_menu_nodup`, `C11_menu_kinds`, `C11_entry_allowed`,
+  `C11_menu_monotone`, `C11_snap`, `C11_menu_length`, `C11_menu_pack`, `C11_history_pack`.
+* `C11_grid_*`, `C11_street_tables_in_grid`, `C11_raise_edges_coded`: the grid is in lowest terms
+  and strictly sorted; every per-street odds is a member of `GRID`, so `u8::from(Edge::Raise(odds))`
+  never hits `expect("invalid odds value")`.
+
+The point the brief asks to check: `choices` offers raise edges only when `legal()` contains a
+`Raise` (`to_raise < to_shove`), but `actionize` of such an edge may return `Shove(to_shove)`, whose
+`is_allowed` goes through `legal().contains(Shove(x))`, i.e. needs `to_shove > 0` and
+`x = to_shove`. Both hold (the actor of a choice node has chips behind, `choice_view`); the case is
+the first branch of `C11_entry_allowed` and the third non-vacuity example. -/
+namespace RP.C11
+open RP.Game RP.Menu RP.TreeShape
+open RP.Showdown (Status)
+open RP.Bits (popW)
+open RP.Codec (Edge pathOfEdges pathToEdges edgeToU8 edgeOfU8 edgeToU64 edgeOfU64)
+
+/-! ## the odds tables (generated from src/mccfr/odds.rs) -/
+
+/-- `Odds::GRID`: positive numerators and denominators, in lowest terms -/
+theorem C11_grid_lowest_terms : ∀ o ∈ gridOdds, 0 < o.1 ∧ 0 < o.2 ∧ Nat.gcd o.1 o.2 = 1 := by decide
+/-- `Odds::GRID` is strictly increasing as rationals ("pre-sorted", used by `Odds::nearest`) -/
+theorem C11_grid_sorted : strictlySorted gridOdds = true := by decide
+theorem C11_grid_nodup : gridOdds.Nodup := by decide
+theorem C11_grid_length : gridOdds.length = 10 := by decide
+/-- every per-street raise table is strictly increasing and a sub-list of `Odds::GRID` -/
+theorem C11_street_tables_in_grid :
+    ∀ t ∈ streetTables, strictlySorted t = true ∧ ∀ o ∈ t, o ∈ gridOdds := by decide
+
+theorem alphabet_eq : alphabet = RP.C15.allEdges := rfl
+
+/-- **no `expect("invalid odds value")`**: the raise edge of every per-street odds has a `u8` code
+in `6..=15` that decodes back to it (`Edge::from(u8)` indexes `Odds::GRID`) -/
+theorem C11_raise_edges_coded : ∀ t ∈ streetTables, ∀ o ∈ t,
+    ∃ c, edgeToU8 (.raise o.1 o.2) = some c ∧ (6 ≤ c ∧ c ≤ 15) ∧ edgeOfU8 c = some (.raise o.1 o.2) := by
+  have key : ∀ t ∈ streetTables, ∀ o ∈ t,
+      (match edgeToU8 (.raise o.1 o.2) with
+        | some c => decide (6 ≤ c) && decide (c ≤ 15) && (edgeOfU8 c == some (Edge.raise o.1 o.2))
+        | none => false) = true := by decide
+  intro t ht o ho
+  have := key t ht o ho
+  cases hc : edgeToU8 (.raise o.1 o.2) with
+  | none => rw [hc] at this; cases this
+  | some c =>
+    rw [hc] at this
+    simp only [Bool.and_eq_true, decide_eq_true_eq, beq_iff_eq] at this
+    exact ⟨c, rfl, ⟨this.1.1, this.1.2⟩, this.2⟩
+
+/-- all 15 edges: `u8` code in `1..=15` and `u64` code, both decoding back (from C15) -/
+theorem C11_edge_codes (e : Edge) (h : e ∈ alphabet) :
+    (∃ c, edgeToU8 e = some c ∧ (0 < c ∧ c < 16) ∧ edgeOfU8 c = some e) ∧
+    edgeOfU64 (edgeToU64 e) = some e :=
+  ⟨RP.C15.C15_edge_u8 e h, RP.C15.C15_edge_u64 e h⟩
+
+/-! ## the `f32` product of `actionize` truncates to the integer floor -/
+
+/-- **C11, float truncation.** For every pot a hand can have (`0 ≤ pot ≤ 2·STACK`) and every odds of
+`Odds::GRID`, the expression of game.rs — `pot as f32`, `num as f32 / den as f32`, product, `as i16`
+(saturating truncation toward zero) — evaluated on IEEE-754 binary32 equals `⌊pot·num/den⌋`. -/
+theorem C11_f32_floor (pot : Int) (h0 : 0 ≤ pot) (h1 : pot ≤ 2 * STACK) (o : Nat × Nat)
+    (ho : o ∈ gridOdds) : betF32 pot o.1 o.2 = betFloor pot o.1 o.2 := by
+  have hrow := f32_rows o ho
+  unfold f32Row at hrow
+  rw [List.all_eq_true] at hrow
+  have hm : pot.toNat ∈ List.range (2 * RP.Gen.STACK + 1) := by
+    rw [List.mem_range]; unfold STACK at h1; omega
+  have := hrow _ hm
+  have e : ((pot.toNat : Nat) : Int) = pot := Int.toNat_of_nonneg h0
+  rw [e] at this
+  exact eq_of_beq this
+
+/-- the table is not trivially integral: thirds and quarters are rounded *up* by binary32
+(`1/3 ↦ 0x3EAAAAAB`), and the product still truncates to the floor -/
+example : (oddsToF32 1 3).toBits = 0x3EAAAAAB ∧ betF32 3 1 3 = 1 ∧ betF32 200 2 3 = 133 ∧
+    betF32 199 3 4 = 149 ∧ betF32 200 4 1 = 800 := by decide +kernel
+/-- outside the theorem's range the cast saturates (Rust `as i16`), it does not wrap -/
+example : asChips (chipsToF32 20000 * chipsToF32 3) = 32767 ∧
+    asChips (chipsToF32 0 / chipsToF32 0) = 0 := by decide +kernel
+
+/-! ## the menu at a decision -/
+
+/-- a decision node in terms of the closing predicates (from `C03_turn`) -/
+theorem decision_of_turn {g : Game} {i : Nat} (ht : turn g = Turn.choice i) :
+    isEveryoneAlright g = false := (((RP.C03.C03_turn g).2.2 i).1 ht).1
+
+theorem pot_range {g : Game} (h : GameInv g) : 0 ≤ g.pot ∧ g.pot ≤ 2 * STACK := by
+  have hc := consts_ok
+  have := h.pair.blinds; have := h.pot_eq
+  exact ⟨by omega, RP.C03.pot_le h⟩
+
+/-- **C11, non-empty.** At every decision, for every raise count, all-in is on the menu. -/
+theorem C11_menu_nonempty {g : Game} {i : Nat} (h : GameInv g) (ht : turn g = Turn.choice i) (n : Nat) :
+    Edge.shove ∈ choices g n ∧ choices g n ≠ [] := by
+  have hna := decision_of_turn ht
+  have hm : Edge.shove ∈ choices g n :=
+    (mem_choices h hna n _).2 (Or.inr (Or.inl ⟨mayShove_choice h hna, rfl⟩))
+  exact ⟨hm, List.ne_nil_of_mem hm⟩
+
+/-- **C11, no duplicates.** -/
+theorem C11_menu_nodup {g : Game} {i : Nat} (h : GameInv g) (ht : turn g = Turn.choice i) (n : Nat) :
+    (choices g n).Nodup := by
+  rw [choices_eq h (decision_of_turn ht)]
+  apply nodup_menu
+  · cases mayRaise g
+    · simp
+    · simpa using (raises_ok g n).1
+  · intro e he
+    cases hm : mayRaise g
+    · simp [hm] at he
+    · rw [hm] at he; exact ((raises_ok g n).2.2 e (by simpa using he)).2
+
+/-- the kinds of abstract edges and of concrete actions -/
+inductive Kind where
+  | draw | fold | check | call | raise | shove | blind
+  deriving DecidableEq, Repr
+
+def edgeKind : Edge → Kind
+  | .draw => .draw | .fold => .fold | .check => .check | .call => .call
+  | .raise _ _ => .raise | .shove => .shove
+def actionKind : Action → Kind
+  | .draw _ => .draw | .fold => .fold | .check => .check | .call _ => .call
+  | .raise _ => .raise | .shove _ => .shove | .blind _ => .blind
+
+/-- what the rules of No-Limit Hold'em say about a kind at a decision (the right-hand sides of
+`C03_memoryless`): fold iff facing a bet, check iff not, call iff the outstanding amount is
+positive and less than the stack, all-in with chips behind, raise iff some legal raise size exists
+(`outstanding + max outstanding BB ≤ stack − 1`), never a deal -/
+def KindPermitted (g : Game) : Kind → Prop
+  | .fold => 0 < toCall g
+  | .check => toCall g = 0
+  | .call => 0 < toCall g ∧ toCall g < (actor g).stack
+  | .shove => 0 < (actor g).stack
+  | .raise => toCall g + max (toCall g) BB ≤ (actor g).stack - 1
+  | .draw => False
+  | .blind => False
+
+/-- **C11, kinds.** Every kind on the menu is a kind `legal()` offers there, and a kind the rules
+permit there; in particular no `Draw` edge at a decision. -/
+theorem C11_menu_kinds {g : Game} {i : Nat} (h : GameInv g) (ht : turn g = Turn.choice i) (n : Nat) :
+    ∀ e ∈ choices g n,
+      (∃ a ∈ legal g, actionKind a = edgeKind e) ∧ KindPermitted g (edgeKind e) ∧ e ≠ Edge.draw := by
+  have hna := decision_of_turn ht
+  obtain ⟨_, _, _, _, hk, _, hr, hsv⟩ := choice_view h hna
+  intro e he
+  rw [legal_choice h hna]
+  rcases (mem_choices h hna n e).1 he with ⟨hm, hmem⟩ | ⟨hm, rfl⟩ | ⟨hm, rfl⟩ | ⟨hm, rfl⟩ | ⟨hm, rfl⟩
+  · have hre := ((raises_ok g n).2.2 e hmem).2
+    cases e <;> simp [isRaise] at hre
+    refine ⟨⟨Action.raise (toRaise g), by unfold legalChoice; simp [hm], rfl⟩, ?_, by simp⟩
+    unfold mayRaise at hm
+    simp only [decide_eq_true_eq] at hm
+    show toCall g + max (toCall g) BB ≤ (actor g).stack - 1
+    rw [← hr, ← hsv]; omega
+  · exact ⟨⟨Action.shove (toShove g), by unfold legalChoice; simp [hm], rfl⟩, hk, by simp⟩
+  · refine ⟨⟨Action.call (toCall g), by unfold legalChoice; simp [hm], rfl⟩, ?_, by simp⟩
+    unfold mayCall mayFold at hm
+    simp only [Bool.and_eq_true, decide_eq_true_eq] at hm
+    exact ⟨hm.1, by rw [← hsv]; exact hm.2⟩
+  · refine ⟨⟨Action.fold, by unfold legalChoice; simp [hm], rfl⟩, ?_, by simp⟩
+    unfold mayFold at hm
+    show 0 < toCall g
+    simpa using hm
+  · refine ⟨⟨Action.check, by unfold legalChoice; simp [hm], rfl⟩, ?_, by simp⟩
+    unfold mayCheck at hm
+    have : effectiveStake g = (actor g).stake := by simpa using hm
+    show toCall g = 0
+    unfold toCall; omega
+
+/-- **C11, snapping — what `actionize` does with a raise edge**, in every state: with
+`bet = ⌊pot·num/den⌋`, `min = to_raise()`, `max = to_shove()`:
+`bet ≥ max → Shove(max)`; otherwise `bet ≤ min → Raise(min)`; otherwise `Raise(bet)`. -/
+theorem C11_snap (g : Game) (deal : Nat) (n d : Int) :
+    (toShove g ≤ betFloor g.pot n d → actionize g deal (.raise n d) = .shove (toShove g)) ∧
+    (betFloor g.pot n d < toShove g → betFloor g.pot n d ≤ toRaise g →
+        actionize g deal (.raise n d) = .raise (toRaise g)) ∧
+    (toRaise g < betFloor g.pot n d → betFloor g.pot n d < toShove g →
+        actionize g deal (.raise n d) = .raise (betFloor g.pot n d)) := by
+  unfold actionize betFloor
+  refine ⟨?_, ?_, ?_⟩
+  · intro h1; simp only [ge_iff_le, h1, if_true]
+  · intro h1 h2
+    have : ¬ toShove g ≤ g.pot * n / d := by omega
+    simp only [ge_iff_le, this, if_false, h2, if_true]
+  · intro h1 h2
+    have a : ¬ toShove g ≤ g.pot * n / d := by omega
+    have b : ¬ g.pot * n / d ≤ toRaise g := by omega
+    simp only [ge_iff_le, a, b, if_false]
+
+/-- where a raise is possible (`to_raise < to_shove`), the chips of the translated action are the
+pot fraction clamped into `[min raise, all-in]` -/
+theorem snap_clamp (g : Game) (deal : Nat) (n d : Int) (hr : toRaise g < toShove g) :
+    chipsOf (actionize g deal (.raise n d)) = min (max (betFloor g.pot n d) (toRaise g)) (toShove g) := by
+  obtain ⟨s1, s2, s3⟩ := C11_snap g deal n d
+  by_cases h1 : toShove g ≤ betFloor g.pot n d
+  · rw [s1 h1]; simp only [chipsOf]; omega
+  · by_cases h2 : betFloor g.pot n d ≤ toRaise g
+    · rw [s2 (by omega) h2]; simp only [chipsOf]; omega
+    · rw [s3 (by omega) (by omega)]; simp only [chipsOf]; omega
+
+/-- **C11, monotone** (general form): in any state where a raise is possible and the pot is not
+negative, a larger pot fraction (as a rational) never translates to fewer chips; an all-in
+counts as the stack. -/
+theorem C11_monotone (g : Game) (deal : Nat) (hr : toRaise g < toShove g) (hp : 0 ≤ g.pot)
+    {n1 d1 n2 d2 : Int} (hd1 : 0 < d1) (hd2 : 0 < d2) (hle : n1 * d2 ≤ n2 * d1) :
+    chipsOf (actionize g deal (.raise n1 d1)) ≤ chipsOf (actionize g deal (.raise n2 d2)) := by
+  rw [snap_clamp g deal n1 d1 hr, snap_clamp g deal n2 d2 hr]
+  have := betFloor_mono hp hd1 hd2 hle
+  omega
+
+/-- odds of a raise edge on a menu: members of `Odds::GRID`, hence positive -/
+theorem menu_raise_odds {g : Game} {n : Nat} {a b : Int} (hmem : Edge.raise a b ∈ raises g n) :
+    (∃ o ∈ gridOdds, a = (o.1 : Int) ∧ b = (o.2 : Int)) ∧ 0 < a ∧ 0 < b := by
+  obtain ⟨o, ho, ha, hb⟩ := raise_in_alphabet ((raises_ok g n).2.2 _ hmem).1
+  obtain ⟨p1, p2, _⟩ := C11_grid_lowest_terms o ho
+  exact ⟨⟨o, ho, ha, hb⟩, by omega, by omega⟩
+
+/-- **C11, monotone on menus.** For two raise entries of a menu, `odds₁ ≤ odds₂` as rationals
+implies `chips(actionize e₁) ≤ chips(actionize e₂)` (all-in = the stack). -/
+theorem C11_menu_monotone {g : Game} {i : Nat} (h : GameInv g) (ht : turn g = Turn.choice i) (n deal : Nat)
+    {n1 d1 n2 d2 : Int} (h1 : Edge.raise n1 d1 ∈ choices g n) (h2 : Edge.raise n2 d2 ∈ choices g n)
+    (hle : n1 * d2 ≤ n2 * d1) :
+    chipsOf (actionize g deal (.raise n1 d1)) ≤ chipsOf (actionize g deal (.raise n2 d2)) := by
+  have hna := decision_of_turn ht
+  have r1 : mayRaise g = true ∧ Edge.raise n1 d1 ∈ raises g n := by
+    rcases (mem_choices h hna n _).1 h1 with x | ⟨_, x⟩ | ⟨_, x⟩ | ⟨_, x⟩ | ⟨_, x⟩
+    · exact x
+    all_goals cases x
+  have r2 : Edge.raise n2 d2 ∈ raises g n := by
+    rcases (mem_choices h hna n _).1 h2 with x | ⟨_, x⟩ | ⟨_, x⟩ | ⟨_, x⟩ | ⟨_, x⟩
+    · exact x.2
+    all_goals cases x
+  have hr : toRaise g < toShove g := by have := r1.1; unfold mayRaise at this; simpa using this
+  exact C11_monotone g deal hr (pot_range h).1 (menu_raise_odds r1.2).2.2 (menu_raise_odds r2).2.2 hle
+
+/-- **C11, every entry is accepted.** At every decision, for every raise count, the concrete action
+of every menu entry passes `is_allowed` (whatever cards a `Draw` would carry: there is no `Draw`
+entry at a decision). Raise entries: `Shove(max)` is accepted because the actor has chips behind,
+`Raise(min)` because raises are only offered when `min < max`, `Raise(bet)` because
+`min < bet < max`. -/
+theorem C11_entry_allowed {g : Game} {i : Nat} (h : GameInv g) (ht : turn g = Turn.choice i) (n deal : Nat) :
+    ∀ e ∈ choices g n, isAllowed g (actionize g deal e) = true := by
+  have hna := decision_of_turn ht
+  obtain ⟨_, _, _, _, hk, _, hr, hsv⟩ := choice_view h hna
+  obtain ⟨_, hall⟩ := legalChoice_spec h hna
+  intro e he
+  rcases (mem_choices h hna n e).1 he with ⟨hm, hmem⟩ | ⟨hm, rfl⟩ | ⟨hm, rfl⟩ | ⟨hm, rfl⟩ | ⟨hm, rfl⟩
+  · have hre := ((raises_ok g n).2.2 e hmem).2
+    cases e <;> simp [isRaise] at hre
+    rename_i a b
+    have hlt : toRaise g < toShove g := by unfold mayRaise at hm; simpa using hm
+    obtain ⟨s1, s2, s3⟩ := C11_snap g deal a b
+    by_cases c1 : toShove g ≤ betFloor g.pot a b
+    · rw [s1 c1, allowed_shove_iff h]; exact ⟨hna, hsv⟩
+    · by_cases c2 : betFloor g.pot a b ≤ toRaise g
+      · rw [s2 (by omega) c2, allowed_raise_iff h]; exact ⟨hna, by omega, by omega⟩
+      · rw [s3 (by omega) (by omega), allowed_raise_iff h]; exact ⟨hna, by omega, by omega⟩
+  · exact hall _ (by unfold legalChoice; simp [hm, actionize])
+  · exact hall _ (by unfold legalChoice; simp [hm, actionize])
+  · exact hall _ (by unfold legalChoice; simp [hm, actionize])
+  · exact hall _ (by unfold legalChoice; simp [hm, actionize])
+
+/-- following a menu entry never trips `apply`'s assertions, and the invariant holds again: the
+states reachable under the abstraction are reachable states -/
+theorem C11_abstract_closed {g : Game} {i : Nat} (h : GameInv g) (ht : turn g = Turn.choice i) (n deal : Nat)
+    (e : Edge) (he : e ∈ choices g n) :
+    step? g (actionize g deal e) = some (act g (actionize g deal e)) ∧
+    GameInv (act g (actionize g deal e)) :=
+  (RP.C03.C03_reject (actionize g deal e)).2 h (C11_entry_allowed h ht n deal e he)
+
+/-- **C11, the float `actionize` is the integer one** in every state with the invariant, for every
+edge of the alphabet (so every theorem here about `actionize` is about the expression of game.rs) -/
+theorem C11_actionize_f32 {g : Game} (h : GameInv g) (deal : Nat) (e : Edge) (he : e ∈ alphabet) :
+    actionizeF32 g deal e = actionize g deal e := by
+  cases e with
+  | raise a b =>
+    obtain ⟨o, ho, rfl, rfl⟩ := raise_in_alphabet he
+    have := C11_f32_floor g.pot (pot_range h).1 (pot_range h).2 o ho
+    simp only [actionizeF32, actionize, this, betFloor]
+  | _ => rfl
+
+/-- **C11, size.** A menu has at most 13 entries (≤ 10 raise sizes, all-in, call, and one of
+fold / check), so it fits the 16 nibbles of a `Path`. -/
+theorem C11_menu_length {g : Game} {i : Nat} (h : GameInv g) (ht : turn g = Turn.choice i) (n : Nat) :
+    (choices g n).length ≤ 13 := by
+  rw [choices_eq h (decision_of_turn ht)]
+  have hl := (raises_ok g n).2.1
+  have hx := fold_check_exclusive g
+  cases mayRaise g <;> cases mayShove g <;> cases mayCall g <;> cases hf : mayFold g <;>
+    cases hc : mayCheck g <;> simp [hf, hc] at hx ⊢ <;> omega
+
+theorem C11_menu_alphabet {g : Game} {i : Nat} (h : GameInv g) (ht : turn g = Turn.choice i) (n : Nat) :
+    ∀ e ∈ choices g n, e ∈ alphabet := by
+  have hna := decision_of_turn ht
+  intro e he
+  rcases (mem_choices h hna n e).1 he with ⟨_, hmem⟩ | ⟨_, rfl⟩ | ⟨_, rfl⟩ | ⟨_, rfl⟩ | ⟨_, rfl⟩
+  · exact ((raises_ok g n).2.2 e hmem).1
+  all_goals (unfold alphabet; simp)
+
+/-- **C11, packing of histories.** Every list of at most sixteen edges of the 15-symbol alphabet
+packs into a 64-bit `Path` and unpacks to the same list (this is `C15_path_roundtrip`). -/
+theorem C11_history_pack (es : List Edge) (hl : es.length ≤ 16) (he : ∀ e ∈ es, e ∈ alphabet) :
+    ∃ p, pathOfEdges es = some p ∧ p < 2 ^ 64 ∧ pathToEdges p = some es :=
+  RP.C15.C15_path_roundtrip es hl he
+
+/-- seventeen or more edges trip `assert!(edges.len() <= 16)` -/
+theorem C11_history_too_long (es : List Edge) (hl : 16 < es.length) : pathOfEdges es = none := by
+  have p3 : RP.Codec.pp 3 = 16 := by decide
+  unfold pathOfEdges; rw [p3]; simp; omega
+
+/-- **C11, packing of menus.** The menu of every decision survives `Path::from` / `Vec<Edge>::from`. -/
+theorem C11_menu_pack {g : Game} {i : Nat} (h : GameInv g) (ht : turn g = Turn.choice i) (n : Nat) :
+    ∃ p, pathOfEdges (choices g n) = some p ∧ p < 2 ^ 64 ∧ pathToEdges p = some (choices g n) :=
+  C11_history_pack _ (by have := C11_menu_length h ht n; omega) (C11_menu_alphabet h ht n)
+
+/-! ## chance and terminal nodes (not decisions) -/
+
+/-- at a chance node the menu is the single `Draw` edge, and its concrete action is accepted exactly
+for a well-formed deal of fresh cards -/
+theorem C11_chance_menu {g : Game} (h : GameInv g) (ht : turn g = Turn.chance) (n : Nat) :
+    choices g n = [Edge.draw] ∧
+    ∀ deal, isAllowed g (actionize g deal .draw) = true ↔
+      (deal &&& inPlay g = 0 ∧ deal < 2 ^ 52 ∧ popW 64 deal = nRevealed (street g)) := by
+  obtain ⟨hs, hd⟩ := (RP.C03.C03_turn g).2.1.1 ht
+  constructor
+  · unfold choices; rw [legal_chance hs hd]; simp [expand, edgeOfAction]
+  · intro deal
+    have := ((RP.C03.C03_memoryless h).2.1 ht).2 (.draw deal)
+    simp only [actionize]; rw [this]
+    constructor
+    · rintro ⟨c, hc, r⟩; cases hc; exact r
+    · intro r; exact ⟨deal, rfl, r⟩
+
+/-- at the end of a hand the menu is empty -/
+theorem C11_terminal_menu {g : Game} (ht : turn g = Turn.terminal) (n : Nat) : choices g n = [] := by
+  have hs := (RP.C03.C03_turn g).1.1 ht
+  unfold choices legal; simp [hs]
+
+/-! ## the property, bundled, for every reachable state -/
+
+/-- everything C11 says about one decision and one raise count -/
+structure MenuOK (g : Game) (n : Nat) : Prop where
+  nonempty : choices g n ≠ []
+  nodup : (choices g n).Nodup
+  kinds : ∀ e ∈ choices g n,
+    (∃ a ∈ legal g, actionKind a = edgeKind e) ∧ KindPermitted g (edgeKind e) ∧ e ≠ Edge.draw
+  allowed : ∀ deal, ∀ e ∈ choices g n, isAllowed g (actionize g deal e) = true
+  float : ∀ deal, ∀ e ∈ choices g n, actionizeF32 g deal e = actionize g deal e
+  steps : ∀ deal, ∀ e ∈ choices g n, ∃ g', step? g (actionize g deal e) = some g' ∧ GameInv g'
+  monotone : ∀ deal n1 d1 n2 d2, Edge.raise n1 d1 ∈ choices g n → Edge.raise n2 d2 ∈ choices g n →
+    n1 * d2 ≤ n2 * d1 →
+    chipsOf (actionize g deal (.raise n1 d1)) ≤ chipsOf (actionize g deal (.raise n2 d2))
+  snap : ∀ deal n1 d1, Edge.raise n1 d1 ∈ choices g n →
+    chipsOf (actionize g deal (.raise n1 d1)) = min (max (betFloor g.pot n1 d1) (toRaise g)) (toShove g)
+  size : (choices g n).length ≤ 13
+  pack : ∃ p, pathOfEdges (choices g n) = some p ∧ p < 2 ^ 64 ∧ pathToEdges p = some (choices g n)
+
+/-- **C11** for every state with the invariant at a decision and every raise count -/
+theorem C11_menu {g : Game} {i : Nat} (h : GameInv g) (ht : turn g = Turn.choice i) (n : Nat) :
+    MenuOK g n where
+  nonempty := (C11_menu_nonempty h ht n).2
+  nodup := C11_menu_nodup h ht n
+  kinds := C11_menu_kinds h ht n
+  allowed := fun deal => C11_entry_allowed h ht n deal
+  float := fun deal e he => C11_actionize_f32 h deal e (C11_menu_alphabet h ht n e he)
+  steps := fun deal e he => ⟨_, C11_abstract_closed h ht n deal e he⟩
+  monotone := fun deal _ _ _ _ h1 h2 hle => C11_menu_monotone h ht n deal h1 h2 hle
+  snap := fun deal n1 d1 h1 => by
+    have hna := decision_of_turn ht
+    have r1 : mayRaise g = true := by
+      rcases (mem_choices h hna n _).1 h1 with x | ⟨_, x⟩ | ⟨_, x⟩ | ⟨_, x⟩ | ⟨_, x⟩
+      · exact x.1
+      all_goals cases x
+    exact snap_clamp g deal n1 d1 (by unfold mayRaise at r1; simpa using r1)
+  size := C11_menu_length h ht n
+  pack := C11_menu_pack h ht n
+
+/-- **C11** for every state reachable from a freshly dealt hand by any accepted action list (of any
+length, with any chip amounts — a superset of the states reachable under the abstraction), at a
+decision, for every raise count -/
+theorem C11_reachable {h0 h1 : Nat} (hv : ValidDeal h0 h1) {as : List Action} {g : Game}
+    (hr : run? (root h0 h1) as = some g) {i : Nat} (ht : turn g = Turn.choice i) (n : Nat) :
+    MenuOK g n := C11_menu (RP.C03.C03_reachable hv hr) ht n
+
+
+/-! ## non-vacuity: concrete decisions -/
+
+private def demo (as : List Action) : Option Game := run? (root 0x3 0x30) as
+/-- menu with the concrete action of each entry -/
+private def view (as : List Action) (n : Nat) : Option (List (Edge × Action)) :=
+  (demo as).map fun g => (choices g n).map fun e => (e, actionize g 0 e)
+theorem demo_deal : ValidDeal 0x3 0x30 := by unfold ValidDeal; decide
+
+/-- the bundled theorem instantiated on a concrete line of play ending at a decision of seat `i` -/
+private theorem demo_menu (as : List Action) (n i : Nat)
+    (ht : (demo as).map turn = some (Turn.choice i)) : ∃ g, demo as = some g ∧ MenuOK g n := by
+  cases hd : demo as with
+  | none => rw [hd] at ht; cases ht
+  | some g => rw [hd] at ht; exact ⟨g, rfl, C11_reachable demo_deal hd (Option.some.inj ht) n⟩
+
+-- the root (small blind to act, pot 3, min raise 3): 13 entries — the maximum; every pot fraction
+-- up to 1:1 snaps to the minimum raise, the larger ones are ⌊pot·odds⌋
+example : view [] 0 = some
+    [(.raise 1 4, .raise 3), (.raise 1 3, .raise 3), (.raise 1 2, .raise 3), (.raise 2 3, .raise 3),
+     (.raise 3 4, .raise 3), (.raise 1 1, .raise 3), (.raise 3 2, .raise 4), (.raise 2 1, .raise 6),
+     (.raise 3 1, .raise 9), (.raise 4 1, .raise 12), (.shove, .shove 99), (.call, .call 1),
+     (.fold, .fold)] := by decide
+-- the theorem instantiated at the root: every clause, for raise count 0
+example : MenuOK (root 0x3 0x30) 0 :=
+  C11_reachable demo_deal (as := []) rfl (i := 1) (by decide) 0
+example : (demo []).map (fun g => (pathOfEdges (choices g 0), (choices g 0).length)) =
+    some (some 0x245FEDCBA9876, 13) ∧
+    pathToEdges 0x245FEDCBA9876 = (demo []).map (fun g => choices g 0) := by decide
+-- a flop decision after a bet of 10 into 4 (raise count 1): min raise 20, pot 14
+example : view [.call 1, .check, .draw 0x700, .raise 10] 1 = some
+    [(.raise 1 2, .raise 20), (.raise 3 4, .raise 20), (.raise 1 1, .raise 20), (.raise 3 2, .raise 21),
+     (.raise 2 1, .raise 28), (.shove, .shove 98), (.call, .call 10), (.fold, .fold)] := by decide
+example : ∃ g, demo [.call 1, .check, .draw 0x700, .raise 10] = some g ∧ MenuOK g 1 :=
+  demo_menu _ 1 0 (by decide)
+-- short stacks (pot 102, 49 behind) on the flop: every raise entry snaps to all-in, and the engine
+-- accepts `Shove(49)` although the entry came from the `Raise` slot of `legal()`
+example : view [.raise 50, .call 49, .draw 0x700] 0 = some
+    [(.raise 1 2, .shove 49), (.raise 3 4, .shove 49), (.raise 1 1, .shove 49), (.raise 3 2, .shove 49),
+     (.raise 2 1, .shove 49), (.shove, .shove 49), (.check, .check)] := by decide
+example : ∃ g, demo [.raise 50, .call 49, .draw 0x700] = some g ∧ MenuOK g 0 :=
+  demo_menu _ 0 1 (by decide)
+example : (demo [.raise 50, .call 49, .draw 0x700]).map
+    (fun g => (legal g, (choices g 0).all fun e => isAllowed g (actionize g 0 e))) =
+    some ([.raise 2, .shove 49, .check], true) := by decide
+-- turn: the first raise of the round has two sizes, later ones one, after the cap none
+example : (view [.raise 10, .call 9, .draw 0x700, .check, .check, .draw 0x800] 0,
+           view [.raise 10, .call 9, .draw 0x700, .check, .check, .draw 0x800] 1,
+           view [.raise 10, .call 9, .draw 0x700, .check, .check, .draw 0x800] 4) =
+    (some [(.raise 1 2, .raise 11), (.raise 1 1, .raise 22), (.shove, .shove 89), (.check, .check)],
+     some [(.raise 1 1, .raise 22), (.shove, .shove 89), (.check, .check)],
+     some [(.shove, .shove 89), (.check, .check)]) := by decide
+-- facing an all-in: no raise entry at all; chance node: the single Draw edge; terminal: nothing
+example : (view [.shove 99] 0, view [.raise 10, .call 9] 0, view [.raise 10, .fold] 0) =
+    (some [(.shove, .shove 98), (.fold, .fold)], some [(.draw, .draw 0)], some []) := by decide
+-- monotonicity needs "a raise is possible": where `to_raise ≥ to_shove` (facing an all-in; no raise
+-- edge is offered there) the raw translation of a raise edge is `Raise(min)` below and `Shove(max)`
+-- above, and min > max
+example : (demo [.shove 99]).map (fun g =>
+    (toRaise g, toShove g, actionize g 0 (.raise 1 4), actionize g 0 (.raise 4 1))) =
+    some (196, 98, .raise 196, .shove 98) := by decide
+-- packing: sixteen edges use all 64 bits, seventeen are rejected
+example : pathOfEdges (List.replicate 16 Edge.shove) = some 0x5555555555555555 ∧
+    pathOfEdges (List.replicate 17 Edge.shove) = none := by decide
+
+end RP.C11
